@@ -99,17 +99,25 @@ def run_impl(case):
         coll = rnd2.random() < 0.5
         first = rnd2.random() < 0.5           # the field under test comes before / after the sibling it collides with
         mine = csr.Field(cls, shape, **kw)
+        # the same field collection may describe several register instances (an annotated register class instantiated for
+        # every channel): what is simulated is then the SECOND instance built from the very same Field objects
+        twice = lib.rng_for(case["seed"], case["idx"], 1252).random() < 0.4
+
+        def mkreg_(spec):
+            if twice:
+                csr.Register(spec, access="rw")
+            return csr.Register(spec, access="rw")
         if rnd2.random() < 0.3:
             # an array whose items have different widths
-            reg = csr.Register({"l": [csr.Field(action.RW, w0), mine, csr.Field(action.RW1C, w1)], "z": csr.Field(action.RW, 2)}, access="rw")
+            reg = mkreg_({"l": [csr.Field(action.RW, w0), mine, csr.Field(action.RW1C, w1)], "z": csr.Field(action.RW, 2)})
             dut, off = [f for p, f in reg if p == ("l", 1)][0], w0
         elif first:
-            reg = csr.Register({"a": {"b": mine}, ("a__b" if coll else "t"): csr.Field(action.RW, w0),
-                                "z": csr.Field(action.RW, w1)}, access="rw")
+            reg = mkreg_({"a": {"b": mine}, ("a__b" if coll else "t"): csr.Field(action.RW, w0),
+                          "z": csr.Field(action.RW, w1)})
             dut, off = [f for p, f in reg if p == ("a", "b")][0], 0
         else:
-            reg = csr.Register({"a": {"b": csr.Field(action.RW, w0)}, ("a__b" if coll else "t"): mine,
-                                "z": csr.Field(action.RW, w1)}, access="rw")
+            reg = mkreg_({"a": {"b": csr.Field(action.RW, w0)}, ("a__b" if coll else "t"): mine,
+                          "z": csr.Field(action.RW, w1)})
             dut, off = [f for p, f in reg if p == (("a__b",) if coll else ("t",))][0], w0
     top = simutil.wrap(reg if inreg else dut)
     sim = simutil.simulator(top, case)
